@@ -67,7 +67,7 @@ var c10table []c10p
 
 func c10Scenarios() []scenario {
 	ops := apiOps()
-	var pairs, simPairs, triples []string
+	var pairs, quietPairs, simPairs, triples []string
 	add := func(list *[]string, p c10p) {
 		c10table = append(c10table, p)
 		*list = append(*list, fmt.Sprint(len(c10table)-1))
@@ -75,6 +75,7 @@ func c10Scenarios() []scenario {
 	for a := range ops {
 		for b := a; b < len(ops); b++ {
 			add(&pairs, c10p{a: a, b: b, c: -1, traffic: true})
+			add(&quietPairs, c10p{a: a, b: b, c: -1})
 			if ops[a].sim && ops[b].sim {
 				add(&simPairs, c10p{a: a, b: b, c: -1, sim: true})
 			}
@@ -101,9 +102,14 @@ func c10Scenarios() []scenario {
 			}
 		}
 	}
-	out := []scenario{{name: "pairs", params: pairs, bound: 1, maxExecQ: 6, maxExecT: 300, prog: c10prog, check: c10check},
-		{name: "sim-pairs", params: simPairs, bound: 1, maxExecQ: 6, maxExecT: 300, prog: c10prog, check: c10check},
-		{name: "pairs-stateful-charset", params: legacyPairs, bound: 1, maxExecQ: 4, maxExecT: 100, prog: c10prog, check: c10check}}
+	// "pairs-quiet": no input traffic, so the only runnable threads are the two callers and the
+	// space of one-preemption schedules is small enough to be completed for every pair (every
+	// preemption point of either call is tried); "pairs": the same calls racing with the
+	// library's own input and resize goroutines, capped per program.
+	out := []scenario{{name: "pairs-quiet", params: quietPairs, bound: 1, maxExecQ: 100, maxExecT: 4000, prog: c10prog, check: c10check},
+		{name: "pairs", params: pairs, bound: 1, maxExecQ: 12, maxExecT: 600, prog: c10prog, check: c10check},
+		{name: "sim-pairs", params: simPairs, bound: 1, maxExecQ: 30, maxExecT: 300, prog: c10prog, check: c10check},
+		{name: "pairs-stateful-charset", params: legacyPairs, bound: 1, maxExecQ: 12, maxExecT: 200, prog: c10prog, check: c10check}}
 	if len(triples) > 0 {
 		out = append(out, scenario{name: "triples", params: triples, bound: 0, maxExecT: 20, prog: c10prog, check: c10check})
 	}
